@@ -44,7 +44,7 @@ def tweak(rng, sc):
 
 def run_template_shapes(ctx, depth):
     """Monitor-only family: shapes of spec.template / spec.selector that the CRD admits but that the model does not
-    represent (template without labels, empty label map, selector that matches nothing).  Two reconciles of the real
+    represent (template without labels, empty label map, a ControllerRevision whose data cannot be applied).  Two reconciles of the real
     controller under recover; the only clause checked is the property's: no panic."""
     from props import gen
     rng = ctx.rng
@@ -53,12 +53,23 @@ def run_template_shapes(ctx, depth):
     while len(scs) < n:
         sc = gen.gen_rollout(rng) if len(scs) % 2 else gen.gen_snapshot(rng)
         sc = tweak(rng, sc)
-        shape = rng.choice(["none", "none", "empty"])
-        for w in (sc["api"], sc["cache"]):
-            if w.get("set"):
-                w["set"]["tmpl_labels"] = shape
-        if rng.random() < 0.5:
-            sc["api"]["revs"], sc["cache"]["revs"] = [], []
+        if rng.random() < 0.6:
+            shape = rng.choice(["none", "none", "empty"])
+            for w in (sc["api"], sc["cache"]):
+                if w.get("set"):
+                    w["set"]["tmpl_labels"] = shape
+            if rng.random() < 0.5:
+                sc["api"]["revs"], sc["cache"]["revs"] = [], []
+        else:
+            # a ControllerRevision whose data cannot be applied (the API stores any RawExtension): most interesting when it
+            # is the one status.currentRevision names
+            st = (sc["api"].get("set") or {}).get("status") or {}
+            revs = sc["api"]["revs"]
+            if revs:
+                named = [r for r in revs if r["name"] in (st.get("currentRevision"), st.get("updateRevision"))]
+                for r in (named if named and rng.random() < 0.8 else [rng.choice(revs)]):
+                    r["corrupt"] = True
+                ctx.count("family:corrupt-revision")
         sc["ops"] = [{"op": "reconcile"}, {"op": "refresh", "what": "all"}, {"op": "reconcile"}]
         scs.append(sc)
     outs = core.run_harness_parallel("reconcile", scs, shards=16)
